@@ -651,7 +651,7 @@ func parseRaceLog(path string) []string {
 	return blocks
 }
 
-var raceFnRe = regexp.MustCompile(`(?m)^  ([^\s(]+)\(`)
+var raceFnRe = regexp.MustCompile(`(?m)^  (\S+)\(\)\s*$`)
 
 // raceKey de-duplicates a report by the innermost non-runtime function of each of the two accesses.
 func raceKey(blk string) string {
